@@ -46,6 +46,9 @@ inductive Slot where
   | firstOf (alts : List (String × Bool))
   /-- `data[k]` must be present (else KeyError) but is plain data -/
   | need (k : String)
+  /-- the `else` branch of `if 'other' in data: … else: process_object(data[k], dic)`
+  (ReparameterizedTimeTreeModel: `root_height` / `ratios` unless `shifts` is given) -/
+  | oneUnless (k : String) (other : String)
   /-- `if 'k' in data: for arg in <signature of the class named by data[by]>: if arg in data[k]: …` -/
   | sub (k : String) (by_ : String) (mode : SubMode)
   deriving Repr
@@ -258,6 +261,13 @@ def processSlot (tbl : ClassTable) (f : Json ν → St → Except Err (Addr × S
   | .need k => match lookup k data with
     | none => .error (.keyError k)
     | some _ => .ok ([], st)
+  | .oneUnless k other =>
+    if hasKey other data then .ok ([], st) else
+    match lookup k data with
+    | none => .error (.keyError k)
+    | some v => match f v st with
+      | .error e => .error e
+      | .ok (a, st1) => .ok ([a], st1)
   | .sub k by_ mode =>
     match lookup k data with
     | none => .ok ([], st)
@@ -283,7 +293,7 @@ def processSlots (tbl : ClassTable) (f : Json ν → St → Except Err (Addr × 
       | .ok (bs, st2) => .ok (as :: bs, st2)
 
 def slotKey : Slot → String
-  | .one k | .many k | .optOne k | .optMany k | .each k | .need k => k
+  | .one k | .many k | .optOne k | .optMany k | .each k | .need k | .oneUnless k _ => k
   | .firstOf _ => "firstOf"
   | .sub k _ _ => k
 
@@ -425,7 +435,18 @@ def classTable : ClassTable where
         { name := "TransformedParameter", slots := [.need "transform", .sub "parameters" "transform" .transform, .many "x"] }),
       ("Distribution",
         { name := "Distribution", slots := [.need "distribution", .many "x", .sub "parameters" "distribution" .dist] }),
-      ("JointDistributionModel", { name := "JointDistributionModel", slots := [.each "distributions"] }) ]
+      ("JointDistributionModel", { name := "JointDistributionModel", slots := [.each "distributions"] }),
+      -- taxa and tree models (inline sub-objects: Taxa, Taxon, heights / branch-length parameters)
+      ("Taxon", { name := "Taxon", slots := [] }),
+      ("Taxa", { name := "Taxa", slots := [.many "taxa"] }),
+      ("UnRootedTreeModel", { name := "UnRootedTreeModel", slots := [.one "taxa", .one "branch_lengths"] }),
+      ("TimeTreeModel", { name := "TimeTreeModel", slots := [.one "taxa", .one "internal_heights"] }),
+      ("ReparameterizedTimeTreeModel",
+        { name := "ReparameterizedTimeTreeModel",
+          slots := [.one "taxa", .optOne "shifts", .oneUnless "root_height" "shifts", .oneUnless "ratios" "shifts"] }),
+      -- registers itself after `taxa` (its heights may refer back to it)
+      ("FlexibleTimeTreeModel",
+        { name := "FlexibleTimeTreeModel", slots := [.one "taxa", .one "internal_heights"], selfRegAfter := some 1 }) ]
   sigs :=
     [ ("torch.distributions.Normal", ["loc", "scale", "validate_args"]),
       ("torch.distributions.LogNormal", ["loc", "scale", "validate_args"]),
@@ -433,6 +454,7 @@ def classTable : ClassTable where
       ("torch.distributions.Gamma", ["concentration", "rate", "validate_args"]),
       ("torch.distributions.ExpTransform", ["cache_size"]),
       ("torch.distributions.SigmoidTransform", ["cache_size"]),
-      ("torch.distributions.AffineTransform", ["loc", "scale", "event_dim", "cache_size"]) ]
+      ("torch.distributions.AffineTransform", ["loc", "scale", "event_dim", "cache_size"]),
+      ("torchtree.evolution.tree_height_transform.DifferenceNodeHeightTransform", ["tree_model", "k", "cache_size"]) ]
 
 end TT.C13
